@@ -86,6 +86,21 @@ def b_table(md, ckey, tier):
     return _bcache[k]
 
 
+CONTAINER_OPEN = {"bullet_list_open", "ordered_list_open", "list_item_open", "blockquote_open"}
+
+
+def trim_container_ends(sa, n):
+    """parse(A + blank line): containers on the trailing spine may legitimately extend over the blank line;
+    everything else (tokens, order, levels, hidden/tight flags, maps of leaf blocks) must equal parse(A)"""
+    out = []
+    for d in sa:
+        if d["type"] in CONTAINER_OPEN and d["map"] is not None and d["map"][1] == n + 1:
+            d = dict(d)
+            d["map"] = [d["map"][0], n]
+        out.append(d)
+    return out
+
+
 def closed(md, A, acc):
     """returns (sig of parse(A+NL), last level-0 type) when A is closed, else None"""
     n = A.count("\n")
@@ -98,10 +113,20 @@ def closed(md, A, acc):
     if sig(probe) != sa + sig(zzt, n + 1):
         return None
     last = [t for t in ta if t.level == 0]
-    return sa, (last[-1].type if last else None)
+    alone = acc.call(md.parse, A)
+    if alone is not CRASH:
+        # the property excludes A ending in an open fence / HTML block: such a leaf at the end of a container
+        # legitimately swallows the blank line, so the A-alone law is not applied then
+        for t in reversed(alone):
+            if t.nesting == -1:
+                continue
+            if t.type in ("fence", "html_block"):
+                alone = CRASH
+            break
+    return sa, (last[-1].type if last else None), (None if alone is CRASH else sig(alone))
 
 
-def pair(md, A, sa, lastA, B, sb, firstB, b_listline, acc):
+def pair(md, A, sa, lastA, B, sb, firstB, b_listline, acc, alone=None):
     if lastA and lastA.endswith("list_close") and b_listline:
         return "excluded"
     if lastA == "code_block" and firstB == "code_block":
@@ -110,8 +135,11 @@ def pair(md, A, sa, lastA, B, sb, firstB, b_listline, acc):
     tt = acc.call(md.parse, A + "\n" + B)
     if tt is CRASH:
         return "crash"
-    if sig(tt) != sa + shifted(sb, n + 1):
+    st = sig(tt)
+    if st != sa + shifted(sb, n + 1):
         return "differs"
+    if alone is not None and trim_container_ends(st[:len(sa)], n) != alone:
+        return "differs-alone"
     return None
 
 
@@ -145,21 +173,24 @@ def _run_A(md, c, tier, A, acc, sub):
     if r is None:
         acc.count("A_not_closed")
         return
-    sa, lastA = r
+    sa, lastA, alone = r
     acc.count("A_closed")
     acc.sig(("A", tuple(d["type"] for d in sa[:8])))
     for B, sb, firstB, bl in b_table(md, C.key(c), tier):
         acc.case()
-        v = pair(md, A, sa, lastA, B, sb, firstB, bl, acc)
+        v = pair(md, A, sa, lastA, B, sb, firstB, bl, acc, alone)
         if v == "excluded":
             acc.count("pairs_excluded")
             continue
         if v == "crash":
             continue
         acc.sig((lastA, firstB, v))
-        if v:
+        if v == "differs":
             acc.violation(sub, f"{lastA} + {firstB}", {"cfg": c, "A": A, "B": B, "tier": tier},
                           f"blocks of A+NL+B differ from blocks(A+NL) ++ shift(blocks(B))")
+        elif v == "differs-alone":
+            acc.violation(sub, f"A part differs from A alone: {lastA}", {"cfg": c, "A": A, "B": B, "tier": tier},
+                          "the blocks of A inside A+NL+B differ from the blocks of A parsed alone (beyond container end lines)")
 
 
 def run_shard(sh, acc):
@@ -195,11 +226,14 @@ def check_case(case, acc):
     acc.case()
     if r is None:
         return
-    sa, lastA = r
+    sa, lastA, alone = r
     tb = acc.call(md.parse, B)
     if tb is CRASH:
         return
-    v = pair(md, A, sa, lastA, B, sig(tb), tb[0].type if tb else None, bool(LISTLINE.match(B.split("\n")[0])), acc)
+    v = pair(md, A, sa, lastA, B, sig(tb), tb[0].type if tb else None, bool(LISTLINE.match(B.split("\n")[0])), acc, alone)
     if v == "differs":
         acc.violation(case["sub"], f"{lastA} + {tb[0].type if tb else None}", {k: case[k] for k in ("cfg", "A", "B")},
                       "blocks of A+NL+B differ from blocks(A+NL) ++ shift(blocks(B))")
+    elif v == "differs-alone":
+        acc.violation(case["sub"], f"A part differs from A alone: {lastA}", {k: case[k] for k in ("cfg", "A", "B")},
+                      "the blocks of A inside A+NL+B differ from the blocks of A parsed alone (beyond container end lines)")
